@@ -9,14 +9,23 @@ FILES = ["crates/parol_runtime/src/parser/parser_types.rs", "crates/parol_runtim
          "crates/parol_runtime/src/lexer/token_stream.rs", "crates/parol_runtime/src/lexer/token_buffer.rs"]
 
 
+_seen_tables = set()
+
+
 def oracle_req(case, reply):
     w = case.split()
     if w[0] != "ll" or len(w) < 13:
         return None
-    if w[5] != "-":
-        return None       # a depth limit may legitimately reject a sentence (C20 covers it)
-    verdict = reply.split()[0] if reply.split() else "none"
-    return "ll-verdict " + " ".join(w[1:4]) + " " + w[7] + " " + w[8] + " " + w[9] + " " + verdict
+    reqs = []
+    key = " ".join(w[1:4])
+    if key not in _seen_tables:
+        # hypothesis of ll_complete / ll_accepts_iff_checked, evaluated once per real table set
+        _seen_tables.add(key)
+        reqs.append("ll-tables-exact " + key)
+    if w[5] == "-":       # a depth limit may legitimately reject a sentence (C20 covers it)
+        verdict = reply.split()[0] if reply.split() else "none"
+        reqs.append("ll-verdict " + key + " " + w[7] + " " + w[8] + " " + w[9] + " " + verdict)
+    return reqs or None
 
 
 def nontrivial(case):
@@ -28,6 +37,7 @@ SPEC = {
     "prop": "llrun",
     "gen_extra": ["plain"],
     "mod": "ParolModel.Props.C01",
+    "more_mods": ["ParolModel.Props.C01b"],
     "files": FILES,
     "oracle_req": oracle_req,
     "nontrivial": nontrivial,
@@ -39,17 +49,17 @@ SPEC = {
     "assumptions": [
         "the Lean function `llRun` mirrors LLKParser::parse_into up to the first syntax error; agreement (result, action trace, tree events, comments) is observed on the explored runs",
         "error recovery is not modelled: with recovery on only the verdict ok / not-ok is compared; that recovery cannot turn an error into success rests on the drain-site analysis in DESIGN.md §6 C01 plus this tie",
-        "completeness (every sentence accepted) is NOT a theorem yet (def LLComplete); it is covered per explored grammar by the verified membership oracle on all short strings",
+        "completeness is a theorem about the model under TablesExact (the automata predict the right production on every reference lookahead string); that hypothesis is not proved for parol's table generator for all grammars — it is DECIDED for every real table set explored by the verified checker tablesExactB (tablesExactB_sound), and the equality with the ORIGINAL grammar's language (through parol's transformations) is covered per explored grammar by the verified membership oracle",
         "the token sequence is the one the real TokenStream delivers for the rendered text (scanner behaviour is C13)",
     ],
 }
 
 CLAIM = {
     "category": "proof",
-    "text": "Soundness half as a theorem for all tables and inputs: ll_sound — if the model of LLKParser::parse_into answers ok then the significant token types are in the language of the production table, for ARBITRARY lookahead automata, any trim/recovery/depth option (only hypothesis: TablesSound, decided per real table set by the verified checker tablesSoundB); foreign_token_rejected — a token type that occurs in no production can never be accepted. The model is tied to the code by exact differential runs on tables produced by parol's real pipeline (built in-process, scanner built with scnr2_generate) and the real token streams. The 'only if' half (completeness) and the end-to-end equality with the ORIGINAL grammar's language are decided per explored grammar by the verified membership recogniser (member_iff) on all short token strings plus random sentences and mutants, with recovery on and off.",
+    "text": "Both halves as theorems for all tables and inputs. Completeness: ll_complete / ll_complete_explicit (a sentence of the production table with a derivation of m production applications is accepted within |w|+2m steps with exactly m actions — no left-recursion or token hypothesis) and ll_accepts_iff_checked (tables passing the verified checkers tablesSoundB and tablesExactB accept EXACTLY the language of the production table); tablesExactB is evaluated by Lean on every real table set. Soundness half as a theorem for all tables and inputs: ll_sound — if the model of LLKParser::parse_into answers ok then the significant token types are in the language of the production table, for ARBITRARY lookahead automata, any trim/recovery/depth option (only hypothesis: TablesSound, decided per real table set by the verified checker tablesSoundB); foreign_token_rejected — a token type that occurs in no production can never be accepted. The model is tied to the code by exact differential runs on tables produced by parol's real pipeline (built in-process, scanner built with scnr2_generate) and the real token streams. The end-to-end equality with the ORIGINAL grammar's language are decided per explored grammar by the verified membership recogniser (member_iff) on all short token strings plus random sentences and mutants, with recovery on and off.",
     "design_ref": "DESIGN.md §6 C01",
-    "note": "Trusted: Lean kernel; faithfulness of the hand-written model as observed by the differential run; harness (grammar rendering, table/token encoders, dynamic scanner construction) and orchestrator. Not proved: completeness (LLComplete), recovery internals. Grammars are sampled.",
-    "technique": "Lean 4 proof (soundness for all inputs) over hand-written model + differential correspondence check + verified membership oracle",
+    "note": "Trusted: Lean kernel; faithfulness of the hand-written model as observed by the differential run; harness (grammar rendering, table/token encoders, dynamic scanner construction) and orchestrator. Not proved: that parol's generator yields exact tables for every grammar (checked per table), recovery internals. Grammars are sampled.",
+    "technique": "Lean 4 proof (soundness and completeness for all inputs, hypotheses checked per real table) over hand-written model + differential correspondence check + verified membership oracle",
 }
 
 
